@@ -1,4 +1,5 @@
 """C10 — bounded queue: back-pressure without losing or duplicating items."""
+import itertools
 import re
 from vlib.runner import Spec, Suite
 
@@ -164,12 +165,347 @@ class LQSuite(Suite):
         return msgs
 
 
+SLQ_EV = re.compile(r"(pop|push)#(\d+)=(.*)")
+
+
+class SLQSuite(Suite):
+    """interleavings on the real header: limited_queue<int> instantiated with a parking Lock (its template parameter).
+    Every operation runs on its own thread and parks (a) after a lock region that moved a promise out of `_awaiters` /
+    `_blocked` - `deliver k` then lets the k-th parked call perform its out-of-lock resolution (the model's `Op.deliver`) -
+    and (b) in front of any *second* lock() of the same operation (`midcall`), so that the following operations run
+    inside the window an implementation opens when it splits a lock region.  Every line shows how many lock regions the
+    operation entered (`r=`); the model says 1 per operation, 0 per resolution."""
+    name = "lq-scheduled"
+    harness = HARNESS
+    driver = "drv_c10"
+    corpus_prefix = "c10s_"
+    chunk = 60
+    nontrivial_rule = "at least one resolution was delayed past another operation's lock region"
+
+    @staticmethod
+    def _mk(limit, ops):
+        lines = ["case 0 slq %d" % limit]
+        v = 100
+        for o in ops:
+            if o == "push":
+                lines.append("push %d" % v)
+                v += 1
+            else:
+                lines.append(o)
+        lines.append("end")
+        return {"id": 0, "lines": lines}
+
+    def gen_cases(self, rng, tier):
+        cases = []
+        alpha = ["push", "pop", "upush 3", "upop 4", "deliver 0", "deliver 1"]
+        maxlen = {1: 5, 2: 5} if tier == "quick" else {1: 7, 2: 6}
+        for limit in (1, 2):
+            for n in range(2, maxlen[limit] + 1):
+                for ops in itertools.product(alpha, repeat=n):
+                    if ops.count("push") >= 1 and "pop" in ops:
+                        cases.append(self._mk(limit, ops))
+        n = 2000 if tier == "quick" else 50000
+        for i in range(n):
+            limit = rng.choice([1, 1, 2, 2, 3, 4])
+            nops = rng.randint(4, 14) if rng.random() < 0.3 else rng.randint(10, 60)
+            bias = rng.choice([0.4, 0.5, 0.6])
+            lazy = rng.choice([0.1, 0.3, 0.6])
+            items = blocked = parked = infl = 0
+            ops = []
+            for k in range(nops):
+                if rng.random() < 0.15:
+                    bias = rng.choice([0.25, 0.5, 0.75])
+                r = rng.random()
+                if infl and (infl >= 5 or rng.random() > lazy):
+                    ops.append("deliver %d" % rng.randrange(infl))
+                    infl -= 1
+                elif r < 0.72:
+                    if rng.random() < bias:
+                        ops.append("push")
+                        if parked:
+                            parked -= 1
+                            infl += 1
+                        elif items < limit:
+                            items += 1
+                        else:
+                            blocked += 1
+                    else:
+                        ops.append("pop")
+                        if items:
+                            if blocked:
+                                blocked -= 1
+                                infl += 1
+                            else:
+                                items -= 1
+                        else:
+                            parked += 1
+                elif r < 0.80:
+                    ops.append("upush %d" % rng.randint(1, 9))
+                    if blocked:
+                        blocked -= 1
+                        infl += 1
+                elif r < 0.86:
+                    ops.append("upop %d" % rng.randint(1, 9))
+                    if parked:
+                        parked -= 1
+                        infl += 1
+                elif r < 0.92:
+                    ops.append("size")
+                elif r < 0.95:
+                    ops.append("empty")
+                else:
+                    j = rng.randint(0, 3)
+                    ops.append("deliver %d" % j)      # possibly no such call: must be a no-op
+                    if j < infl:
+                        infl -= 1
+            if rng.random() < 0.25:
+                ops.append("destroy")
+            cases.append(self._mk(limit, ops))
+        return cases
+
+    def nontrivial(self, case, out):
+        open_ = 0
+        for l in out:
+            h = l.split(" ;")[0]
+            if h.startswith("deliver ") and not h.startswith("deliver none"):
+                open_ -= 1
+            elif open_ > 0 and not h.startswith("end"):
+                return True
+            if " paused" in h or " midcall" in h:
+                open_ += 1
+        return False
+
+    def stats(self, cases, outs):
+        ops, limits = {}, {}
+        paused = delayed = max_inflight = 0
+        for c in cases:
+            lim = c["lines"][0].split()[3]
+            limits[lim] = limits.get(lim, 0) + 1
+            for l in c["lines"][1:-1]:
+                w = l.split()[0]
+                ops[w] = ops.get(w, 0) + 1
+            cur = 0
+            for l in outs.get(str(c["id"]), []):
+                h = l.split(" ;")[0]
+                if " paused" in h:
+                    paused += 1
+                    cur += 1
+                    max_inflight = max(max_inflight, cur)
+                elif h.startswith("deliver ") and not h.startswith("deliver none"):
+                    cur -= 1
+                elif cur:
+                    delayed += 1
+        return {"limits": limits, "ops": ops, "calls_parked_before_resolution": paused,
+                "max_resolutions_in_flight": max_inflight, "lock_regions_run_while_a_resolution_was_in_flight": delayed}
+
+    def oracle(self, case, out):
+        """C10 on an interleaved trace.  While every operation is one lock region (no `midcall`), each line is checked
+        against what the statement prescribes for that lock step (back-pressure decision, FIFO of items / blocked pushes /
+        waiting pops, unblock_*).  Always, whenever no call is in progress: a push future is pending only while exactly
+        `limit` items wait, a pop future only while nothing waits and nothing is blocked; every item delivered once."""
+        msgs = []
+        hdr = case["lines"][0].split()
+        if hdr[2] != "slq":
+            return msgs
+        limit = int(hdr[3])
+        ops = case["lines"][1:]
+        push_val, push_state, pop_state = {}, {}, {}     # states: 'incall' | 'pending' | outcome
+        queue, blocked, waiters = [], [], []             # strict bookkeeping: values queued, push ids blocked, pop ids parked
+        parked = []       # calls in progress, in park order: dict(kind, label, events(set), ret, midcall)
+        concurrent = False                               # some operation used more than one lock region
+        finished = False
+
+        def settle_future(kind, i, o):
+            st = pop_state if kind == "pop" else push_state
+            if st.get(i) not in ("pending", "incall"):
+                msgs.append("duplicate: %s#%d resolved twice or never issued (%s)" % (kind, i, o))
+            st[i] = o
+
+        def quiescent_check(where, pending_push=None, pending_pop=None):
+            """no call in progress: evaluate the invariants from the futures alone"""
+            ok_push = sum(1 for s_ in push_state.values() if s_ == "ok")
+            got = sum(1 for s_ in pop_state.values() if s_.startswith("v:"))
+            n = ok_push - got
+            pp = pending_push if pending_push is not None else sorted(i for i, s_ in push_state.items() if s_ == "pending")
+            pq = pending_pop if pending_pop is not None else sorted(i for i, s_ in pop_state.items() if s_ == "pending")
+            if n > limit:
+                msgs.append("size: %d items are waiting, limit %d (%s)" % (n, limit, where))
+            if pp and n < limit:
+                msgs.append("backpressure: push %s pending although only %d < limit %d items are waiting - nobody owes it a "
+                            "wake-up (%s)" % (pp, n, limit, where))
+            if pq and (n > 0 or pp):
+                msgs.append("lost: pop %s parked although %d items are waiting and pushes %s are blocked (%s)" % (pq, n, pp, where))
+
+        for op, line in zip(ops, out):
+            w = op.split()
+            headtxt, _, tail = line.partition(" ; ")
+            head = headtxt.split()
+            evs = []
+            for e in tail.split():
+                m = SLQ_EV.match(e)
+                if not m:
+                    raise ValueError("unparsable event %r" % e)
+                evs.append((m.group(1), int(m.group(2)), m.group(3)))
+            evset = sorted(evs)
+            if w[0] in ("destroy", "end"):
+                finished = True
+                canceled_push = sorted(i for k, i, o in evs if k == "push" and o == "canceled")
+                canceled_pop = sorted(i for k, i, o in evs if k == "pop" and o == "canceled")
+                if not concurrent:
+                    want = []
+                    for c in parked:
+                        want += list(c["events"]) + ([c["own"]] if c["own"] else [])
+                    want += [("push", i, "canceled") for i in blocked] + [("pop", i, "canceled") for i in waiters]
+                    if sorted(want) != evset:
+                        msgs.append("destroy: expected %s, got %s" % (sorted(want), evset))
+                for k, i, o in evs:
+                    settle_future(k, i, o)
+                # the moment after the last call returned and before the queue died
+                for i in canceled_push:
+                    push_state[i] = "pending"
+                for i in canceled_pop:
+                    pop_state[i] = "pending"
+                quiescent_check("at destruction")
+                for i in canceled_push:
+                    push_state[i] = "canceled"
+                for i in canceled_pop:
+                    pop_state[i] = "canceled"
+                break
+            status = head[1] if len(head) > 1 else ""
+            if w[0] == "deliver":
+                k = int(w[1])
+                if head[1] == "none":
+                    if not concurrent and k < len(parked):
+                        msgs.append("harness: deliver %d found no call" % k)
+                else:
+                    ret = head[2][4:] if len(head) > 2 and head[2].startswith("ret=") else ""
+                    c = parked.pop(k) if k < len(parked) else None
+                    if ret in ("again", "midcall"):
+                        concurrent = True
+                        if c:
+                            parked.append(c)
+                    else:
+                        lab, _, st = ret.partition(":")
+                        if lab.startswith("push#"):
+                            settle_future("push", int(lab[5:]), st) if st != "pending" else push_state.__setitem__(int(lab[5:]), "pending")
+                        elif lab.startswith("pop#"):
+                            settle_future("pop", int(lab[4:]), st) if st != "pending" else pop_state.__setitem__(int(lab[4:]), "pending")
+                        if not concurrent and c is not None:
+                            if ret != c["ret"]:
+                                msgs.append("%s: the parked call must return %s, got %s" % (c["tag"], c["ret"], ret))
+                            if evset != sorted(c["events"]):
+                                msgs.append("%s: the parked call must resolve exactly %s, got %s" % (c["tag"], sorted(c["events"]), evset))
+                    if head[1] != "r=0":
+                        concurrent = True
+            else:
+                if status == "midcall" or (len(head) > 2 and head[-1] != "r=1"):
+                    concurrent = True
+                paused = status == "paused"
+                if w[0] == "push":
+                    i = int(head[0][5:])
+                    push_val[i] = int(w[1])
+                    push_state[i] = "incall" if status in ("paused", "midcall") else status
+                    if status == "midcall":
+                        parked.append({"midcall": True})
+                    if not concurrent:
+                        if waiters:
+                            tgt = waiters.pop(0)
+                            if not paused:
+                                msgs.append("backpressure: push with a consumer waiting must hand its item over (%s)" % status)
+                            parked.append({"tag": "order", "events": [("pop", tgt, "v:%s" % w[1])], "ret": "push#%d:ok" % i,
+                                           "own": ("push", i, "ok")})
+                        elif len(queue) < limit:
+                            if status != "ok":
+                                msgs.append("backpressure: push %s with %d < limit %d items waiting" % (status, len(queue), limit))
+                            queue.append(int(w[1]))
+                        else:
+                            if status != "pending":
+                                msgs.append("backpressure: push %s with %d >= limit %d items waiting" % (status, len(queue), limit))
+                            blocked.append(i)
+                elif w[0] == "pop":
+                    i = int(head[0][4:])
+                    pop_state[i] = "incall" if status in ("paused", "midcall") else status
+                    if status == "midcall":
+                        parked.append({"midcall": True})
+                    if not concurrent:
+                        if queue:
+                            v = queue.pop(0)
+                            if blocked:
+                                b = blocked.pop(0)
+                                queue.append(push_val[b])
+                                if not paused:
+                                    msgs.append("blocked-fifo: pop with pushes blocked must admit the oldest one (%s)" % status)
+                                parked.append({"tag": "blocked-fifo", "events": [("push", b, "ok")], "ret": "pop#%d:v:%d" % (i, v),
+                                               "own": ("pop", i, "v:%d" % v)})
+                            elif status != "v:%d" % v:
+                                kind = "duplicate" if status.startswith("v:") and status[2:].isdigit() and \
+                                    int(status[2:]) in [int(s_[2:]) for s_ in pop_state.values() if s_.startswith("v:")][:-1] else "order"
+                                msgs.append("%s: pop#%d got %s, the oldest waiting item is %d" % (kind, i, status, v))
+                        else:
+                            if status != "pending":
+                                msgs.append("lost: pop on an empty queue returned %s" % status)
+                            waiters.append(i)
+                elif w[0] in ("upush", "upop"):
+                    lst = blocked if w[0] == "upush" else waiters
+                    fk = "push" if w[0] == "upush" else "pop"
+                    if status == "midcall":
+                        parked.append({"midcall": True})
+                    if not concurrent:
+                        if lst:
+                            tgt = lst.pop(0)
+                            if not paused:
+                                msgs.append("unblock_%s: with %s#%d waiting it must take it (%s)" % (fk, fk, tgt, status))
+                            parked.append({"tag": "unblock_%s" % fk, "events": [(fk, tgt, "exc:%s" % w[1])], "ret": "%s:1" % w[0],
+                                           "own": None})
+                        elif status != "0":
+                            msgs.append("unblock_%s: reported %s with nothing to unblock" % (fk, status))
+                elif w[0] == "size":
+                    if status == "midcall":
+                        parked.append({"midcall": True})
+                    elif not concurrent:
+                        if int(status) != len(queue):
+                            msgs.append("size: size() %s but %d items are waiting" % (status, len(queue)))
+                    if status.isdigit() and int(status) > limit:
+                        msgs.append("size: size() %s exceeds limit %d" % (status, limit))
+                elif w[0] == "empty":
+                    if status == "midcall":
+                        parked.append({"midcall": True})
+                    elif not concurrent and (status == "1") != (not queue):
+                        msgs.append("size: empty() %s but %d items are waiting" % (status, len(queue)))
+                if evs and not concurrent:
+                    msgs.append("spurious: `%s` resolved %s" % (op, evset))
+            if w[0] != "deliver" or head[1] != "none":
+                for k_, i, o in evs:
+                    settle_future(k_, i, o)
+            if not parked and not any(s_ == "incall" for s_ in list(push_state.values()) + list(pop_state.values())):
+                quiescent_check("after `%s`" % op)
+        if not finished:
+            msgs.append("hang: the trace ends before the queue was destroyed (%d lines for %d ops)" % (len(out), len(ops)))
+        elif any(s_ in ("pending", "incall") for s_ in list(pop_state.values()) + list(push_state.values())):
+            msgs.append("hang: a future is still pending after the queue was destroyed")
+        got = [int(pop_state[i][2:]) for i in sorted(pop_state) if pop_state[i].startswith("v:")]
+        surv = [push_val[i] for i in sorted(push_val) if push_state.get(i) == "ok"]
+        if len(set(got)) != len(got):
+            msgs.append("duplicate: an item was delivered twice: %s" % got)
+        elif not set(got) <= set(push_val.values()):
+            msgs.append("spurious: delivered %s, pushed %s" % (got, sorted(push_val.values())))
+        elif not concurrent and got != surv[:len(got)]:
+            msgs.append("order: delivered %s (by pop arrival) is not the prefix of the accepted pushes %s" % (got, surv))
+        seen, res = set(), []
+        for m in msgs:
+            if m not in seen:
+                seen.add(m)
+                res.append(m)
+        return res
+
+
 class C10(Spec):
     pid = "C10"
     lean_modules = ["CoclsModel.Props.C10"]
     design_ref = "DESIGN.md §5 C10"
     trusted_base = ["hand-written model lean/CoclsModel/LimitedQueue.lean tied to queue.h by differential correspondence "
-                    "(harness/h_queue.cpp vs lean/Drivers/C10.lean) on generated histories",
+                    "(harness/h_queue.cpp vs lean/Drivers/C10.lean) on generated sequential histories and on scheduled interleavings "
+                    "(every short history for limits 1-2 + random), including the number of lock regions per operation",
                     "std::queue / std::mutex / promise resolution (C01/C02) taken as specified"]
     technique = "Lean 4 invariant proof (induction over all operation lists) + differential correspondence with the real header"
     level_text = ("Lean 4 theorems over an executable model of limited_queue (one step per lock region, out-of-lock resolutions as "
@@ -178,11 +514,13 @@ class C10(Spec):
                   "histories and diffing every line; property oracles run on the implementation trace")
     level_note = ("trusted: Lean kernel (axioms propext/Classical.choice/Quot.sound at most), the hand-written model, the differential "
                   "harness (sampling), std::queue/std::mutex and the promise/future layer (C01/C02). Thread interleavings are covered by the "
-                  "theorem (any interleaving of lock regions is an op list) but exercised on the real code only sequentially + a thread stress.")
+                  "theorem (any interleaving of lock regions is an op list); on the real code they are exercised sequentially and by the "
+                  "scheduled suite (limited_queue instantiated with a parking Lock: out-of-lock resolutions delayed past other lock regions, "
+                  "any second lock region of one operation becomes an interleaving point, lock regions per operation compared with the model).")
     assumptions = ["limit >= 1", "the queue is not destroyed while another thread is inside one of its methods"]
 
     def suites(self):
-        return [LQSuite()]
+        return [LQSuite(), SLQSuite()]
 
 
 SPEC = C10()
